@@ -77,6 +77,8 @@ data_op = st.one_of(
     st.tuples(st.just("revive"), ref, st.integers(0, 3), ref, set_value, st.one_of(st.none(), st.none(), seg)),
     st.tuples(st.just("revive"), ref, st.integers(0, 3), ref, set_value, st.one_of(st.none(), st.none(), seg)),
     st.tuples(st.just("badattr"), ref, ref),
+    st.tuples(st.just("edit"), ref, ref, st.integers(0, 9)),
+    st.tuples(st.just("edit"), ref, ref, st.integers(0, 9)),
 )
 boundary_op = st.one_of(
     st.just(("commit",)), st.just(("commit",)), st.just(("commit",)), st.just(("commit",)),
@@ -192,6 +194,18 @@ def bind(op, tree):
         if k2 == "copy":
             b["without_attrs"] = False
         return [b]
+    if kind == "edit":  # write one element of an existing numeric array dataset in place
+        arrs = [p for p in nodes if tree.lookup(p).kind == "d" and tree.lookup(p).value[0] == "arr"
+                and len(tree.lookup(p).value[2]) == 1 and tree.lookup(p).value[2][0] >= 1 and tree.lookup(p).value[1][1] in "iuf"]
+        if not arrs:
+            # nothing to edit yet: make an array with an attribute (a later edit op finds it, maybe in a later patch)
+            if tree.lookup("/ea") is not None:
+                return []
+            return [dict(op="set", recv="/", path="ea", abs="/ea", v={"t": "arr", "dt": "i8", "v": [1, 2, 3]}, macro="edit"),
+                    dict(op="setattr", abs="/ea", key="unit", v={"t": "str", "v": "m"}, macro="edit")]
+        p = arrs[op[1] % len(arrs)]
+        n = tree.lookup(p).value[2][0]
+        return [dict(op="edit", abs=p, idx=op[2] % n, val=op[3])]
     if kind == "badattr":  # delete an attribute, then a write to it that HDF5 refuses: it must stay deleted
         allp = ["/"] + nodes
         withattrs = [p for p in allp if tree.lookup(p).attrs]
@@ -276,6 +290,15 @@ def apply_model(tree, b):
         if b["dst_abs"] == b["src_abs"] or b["dst_abs"].startswith(b["src_abs"] + "/"):
             raise HarnessError("move into own subtree / onto itself must not be generated")
         tree.move(b["src_abs"], b["dst_abs"])
+    elif o == "edit":
+        import numpy as np
+        n = tree.lookup(b["abs"])
+        if n is None or n.kind != "d":
+            raise OpFails("absent")
+        _, dt, shape, hx = n.value
+        arr = np.frombuffer(bytes.fromhex(hx), dtype=np.dtype(dt)).reshape(shape).copy()
+        arr[b["idx"]] = b["val"]
+        n.value = ["arr", dt, list(shape), arr.tobytes().hex()]
     else:
         raise HarnessError(b)
 
@@ -302,6 +325,17 @@ def apply_real(root, b):
             node.attrs[b["key"]] = realize(b["v"])
         else:
             del node.attrs[b["key"]]
+        return
+    if o == "edit":
+        ds = root[b["abs"]]
+        if hasattr(ds, "copy_into_patch"):
+            # IH5: a dataset held by an older container is first copied into the patch (the documented way)
+            try:
+                ds.copy_into_patch()
+            except ValueError as e:
+                if "already from latest" not in str(e):
+                    raise
+        root[b["abs"]][b["idx"]] = b["val"]
         return
     g = root if b["recv"] == "/" else root[b["recv"]]
     if o == "set":
@@ -512,7 +546,7 @@ def _touch_paths(b):
     return []
 
 
-DATA_KINDS = {"set", "mkgrp", "del", "setattr", "delattr", "copy", "move", "copyinto", "replace", "touch", "renamesfx", "revive", "badattr"}
+DATA_KINDS = {"set", "mkgrp", "del", "setattr", "delattr", "copy", "move", "copyinto", "replace", "touch", "renamesfx", "revive", "badattr", "edit"}
 
 
 class Session:
@@ -693,6 +727,16 @@ def _classify(out, b, before, tree, k, created_in, replaced_in, ever, attr_set_i
     if b.get("into_self") or (o == "copy" and b["dst_abs"].startswith(b["src_abs"] + "/")):
         out.classes.add("copy_into_own_subtree")
     new_paths = []
+    if o == "edit":
+        out.classes.add("edit_in_place")
+        if created_in.get(b["abs"], 0) < k:
+            out.classes.add("edit_dataset_of_older_container")
+            if tree.lookup(b["abs"]).attrs:
+                out.classes.add("edit_dataset_of_older_container_with_attrs")
+            # the dataset (and its attributes) are written anew in the current container
+            created_in[b["abs"]] = k
+            for a in tree.lookup(b["abs"]).attrs:
+                attr_set_in[(b["abs"], a)] = k
     if b.get("macro") == "revive" and o != "del":
         out.classes.add("revive_dead_path_" + o)
     if o in ("set", "mkgrp"):
